@@ -42,7 +42,7 @@ Print Assumptions C06_hardlink_wellformed.
 
 (* omit lines, plain or wildcard, remove the matching members *)
 Theorem C06_omit_removes : forall i mf, good_input i -> stage_map i = Ok mf ->
-  forall pre nm w post k, script_ops (i_script i) = pre ++ OOmit nm w :: post ->
+  forall pre nm w post k, user_script i = pre ++ OOmit nm w :: post ->
   omit_hit nm w k = true -> mem k mf = true ->
   ops_name (i_tree i) post k \/ (exists k0, mem k0 mf = true /\ In k (nrparents k0)) \/ k = root_path.
 Proof. exact omit_removes. Qed.
@@ -56,11 +56,11 @@ Print Assumptions C06_omit_removes_now.
    line names, is a member unless an omit line matches it *)
 Theorem C06_member_if_recorded : forall i mf sel, stage_map i = Ok mf ->
   all_contents (selected (i_pkgs i)) = Ok sel ->
-  forall n, In n sel -> lstat (i_tree i) n <> None -> omits_none (script_ops (i_script i)) n -> mem n mf = true.
+  forall n, In n sel -> lstat (i_tree i) n <> None -> omits_none (user_script i) n -> mem n mf = true.
 Proof. exact member_if_recorded. Qed.
 Print Assumptions C06_member_if_recorded.
 Theorem C06_member_if_user : forall i mf, stage_map i = Ok mf ->
-  forall pre li post n, script_ops (i_script i) = pre ++ OAdd li :: post ->
+  forall pre li post n, user_script i = pre ++ OAdd li :: post ->
   In n (op_targets (i_tree i) li) -> (li_skip li = true -> lstat (i_tree i) n <> None) ->
   omits_none post n -> mem n mf = true.
 Proof. exact member_if_user. Qed.
@@ -93,8 +93,8 @@ Example C06_wf_example : C06.wf ex_case = true /\ C06.kf ex_case = 0%N
 Proof. exact ex_case_facts. Qed.
 Example C06_omit_example :
   script_ops [bs "dir /opt/x mod=0755"; bs "# c"; bs "omit ""/usr/bin/ba*"""; bs "tbd /usr/bin/bar absent=skip"]
-  = ([OAdd (MkLI TDir (bs "/opt/x") false false false false)] ++ OOmit (bs "/usr/bin/ba*") true
-    :: [OAdd (MkLI TTbd (bs "/usr/bin/bar") false false false true)])%list
+  = ([OAdd (MkLI TDir (bs "/opt/x") false false false false None)] ++ OOmit (bs "/usr/bin/ba*") true
+    :: [OAdd (MkLI TTbd (bs "/usr/bin/bar") false false false true None)])%list
   /\ omit_hit (bs "/usr/bin/ba*") true (bs "/usr/bin/bar") = true
   /\ omit_hit (bs "/usr/bin/ba*") true (bs "/usr/bin/sub/bar") = false.
 Proof. exact ex_omit_facts. Qed.
